@@ -245,7 +245,7 @@ C17_DataListOK(d, x) ==
 
 C17_DataSingleOK(d, x) ==
   CASE x.q \in {"AnchorByIRI", "AnchorByHash"} ->
-         /\ ~x.err /\ x.riri = x.iri
+         /\ ~x.err /\ x.riri = x.iri /\ x.same_hash      \* the anchored content hash comes back
          /\ KnownIri(d, x.iri)
          /\ \E a \in d.anchors : a.id = IdOfIri(d, x.iri) /\ a.t = x.t
     [] x.q = "Resolver" ->
